@@ -499,6 +499,8 @@ def _prep_index(self, indx):
 
         # Handle any other index element the NumPy way, with no masking
         elif isinstance(item, (slice, type(Ellipsis))):
+            if isinstance(item, slice):
+                item.indices(axis_length)   # reject a zero step or non-integers
             pre_index += [item]
 
         else:
